@@ -70,3 +70,36 @@ Theorem C05_no_sync_no_change F h ops :
   hd_disk (hrun F h ops) = hd_disk h /\ hd_hdr_on_disk (hrun F h ops) = hd_hdr_on_disk h.
 Proof. exact (abandon_before_any_sync F h ops). Qed.
 Print Assumptions C05_no_sync_no_change.
+
+(** ** the two layers composed (Proofs/SlotBytesProofs.v): the handle model's slots ARE the bytes
+    seen through the page buffer.  [bytes_view b] is the file as the handle sees it,
+    [encode_image h arcs] the byte image of header [h] and archives [arcs] (C06),
+    [slot_offset h arcs a j] = header length + 12 * (slots of the archives before [a]) + 12 * [j]. *)
+From WT Require Import Model.FileImage Proofs.CodecProofs Proofs.ImageProofs Proofs.SlotBytesProofs.
+
+(** a 12-byte slot write through the buffer is [putPointAt] on the archives; the disk is untouched *)
+Theorem C05_slot_write_is_put_and_stays_off_disk b h arcs a r j p :
+  fb_inv b -> bytes_view b = encode_image h arcs ->
+  nth_error arcs a = Some r -> (j < length (a_slots r))%nat ->
+  exists b', write_at b (Z.of_nat (slot_offset h arcs a j)) (enc_point p) = IoOk b' /\
+             fb_inv b' /\ fb_disk b' = fb_disk b /\
+             bytes_view b' = encode_image h (set_arc arcs (Z.of_nat a) (put_at r (Z.of_nat j) p)).
+Proof. exact (slot_write_through_buffer b h arcs a r j p). Qed.
+Print Assumptions C05_slot_write_is_put_and_stays_off_disk.
+
+(** a slot read through the buffer returns the stored point and changes neither view nor disk *)
+Theorem C05_slot_read_returns_slot b h arcs a r j :
+  fb_inv b -> bytes_view b = encode_image h arcs ->
+  nth_error arcs a = Some r -> (j < length (a_slots r))%nat ->
+  exists b', read_at b (Z.of_nat (slot_offset h arcs a j)) 12 = IoOk (b', enc_point (nth j (a_slots r) zero_point)) /\
+             fb_inv b' /\ fb_disk b' = fb_disk b /\ bytes_view b' = bytes_view b.
+Proof. exact (slot_read_through_buffer b h arcs a r j). Qed.
+Print Assumptions C05_slot_read_returns_slot.
+
+(** Sync (Flush) then a fresh Open: exactly the header and archives the handle showed *)
+Theorem C05_flush_then_open_reads_the_handle_state b h arcs :
+  fb_inv b -> bytes_view b = encode_image h arcs ->
+  wf_header h -> 0 < h_count h -> matches (h_arcs h) arcs ->
+  open_image (fb_disk (flush b)) = Some (h, arcs).
+Proof. exact (flush_then_open b h arcs). Qed.
+Print Assumptions C05_flush_then_open_reads_the_handle_state.
